@@ -321,6 +321,7 @@ def witness_schedule(S, sk, case):
 
 
 def run_handover(ctx, seconds=None):
+    run_staged_faults(ctx)
     sk = e8_handover.skeleton(REPO)
     name = "correspondence:handover-model"
     S = make_scheduler()
@@ -413,8 +414,120 @@ def run_handover(ctx, seconds=None):
             ctx.obligation(name, "correspondence", True, "%d executed schedules: model predicts the same deliveries (lost messages included)" % agree)
 
 
+# ---- staged messages meet failing / logging destinations at the first add (sequential) -------------------
+
+def run_staged(case):
+    """case: dict(pre=k, dests=[kinds in registration order], fail=[indices of the flaky destination's calls that raise],
+    post=m).  Kinds: "H" healthy (records), "F" flaky (raises on the listed calls), "R" logs a message of its own the first
+    time it is called (re-entrantly, through the same Destinations).  k messages are staged before the first add,
+    m more are logged after it."""
+    import eliot._output as O
+
+    D = O.Destinations()
+    saved = O.Logger._destinations
+    O.Logger._destinations = D
+    seen = {i: [] for i in range(len(case["dests"]))}
+    raised = []  # what the flaky destination raised on: (message_type, n)
+    calls = {"F": 0}
+    opened = {}
+
+    def mk(i, kind):
+        def dest(m):
+            seen[i].append([m.get("message_type"), m.get("n")])
+            if kind == "F":
+                c = calls["F"]
+                calls["F"] += 1
+                if c in case["fail"]:
+                    raised.append([m.get("message_type"), m.get("n")])
+                    raise IOError("destination %d failed on its call %d" % (i, c))
+            elif kind == "R" and not opened.get(i):
+                opened[i] = True
+                O.Logger().write({"message_type": "dest:opened", "n": 1000 + i})
+        return dest
+
+    errors = []
+    try:
+        try:
+            for n in range(case["pre"]):
+                O.Logger().write({"message_type": "m", "n": n})
+            D.add(*[mk(i, k) for i, k in enumerate(case["dests"])])
+            for n in range(case["pre"], case["pre"] + case["post"]):
+                O.Logger().write({"message_type": "m", "n": n})
+        except BaseException as e:  # noqa - observation
+            errors.append(type(e).__name__)
+    finally:
+        O.Logger._destinations = saved
+    return dict(seen=seen, raised=raised, errors=errors)
+
+
+def oracle_staged(case, obs):
+    """Everything staged before the first add - and everything logged by anybody while it is being handed over - reaches
+    every healthy destination of that first call exactly once; the staged messages keep their order.  (Where a report or a
+    destination's own message lands *between* the staged ones is not checked: order of such extra messages is C02's.)"""
+    bad = []
+    if obs["errors"]:
+        bad.append("logging / add_destinations raised %s" % obs["errors"])
+    ordinary = list(range(case["pre"] + case["post"]))
+    nreports = sum(1 for t, _ in obs["raised"] if t != "eliot:destination_failure")
+    own = [1000 + i for i, k in enumerate(case["dests"]) if k == "R" and obs["seen"][i]]  # those that were used at all
+    for i, kind in enumerate(case["dests"]):
+        if kind != "H":
+            continue
+        got = obs["seen"][i]
+        ms = [n for t, n in got if t == "m"]
+        if ms != ordinary:
+            bad.append("healthy destination %d received the messages %s, staged and logged were %s" % (i, ms, ordinary))
+        reps = sum(1 for t, _ in got if t == "eliot:destination_failure")
+        if reps != nreports:
+            bad.append("a destination raised on %d messages but healthy destination %d received %d eliot:destination_failure reports"
+                       % (nreports, i, reps))
+        opened = sorted(n for t, n in got if t == "dest:opened")
+        if opened != own:
+            bad.append("messages logged by destinations on first use %s, healthy destination %d received %s" % (own, i, opened))
+    return bad
+
+
+def run_staged_faults(ctx):
+    rng = ctx.rng("staged-faults")
+    cases = []
+    for pre in (1, 2, 3, 5):
+        for dests in (["F", "H"], ["H", "F"], ["R", "H"], ["H", "R"], ["F", "R", "H"], ["H", "H", "F"]):
+            masks = [[0], [pre - 1], list(range(min(pre, 3)))] if "F" in dests else [[]]
+            for fail in masks:
+                cases.append(dict(kind="staged", pre=pre, dests=dests, fail=sorted(set(fail)), post=2))
+    for _ in range(ctx.budget(40, 600)):
+        pre = rng.randint(0, 8)
+        dests = [rng.choice("HFR") for _ in range(rng.randint(1, 4))]
+        if dests.count("F") > 1:
+            dests = [("H" if (k == "F" and j != dests.index("F")) else k) for j, k in enumerate(dests)]
+        if "H" not in dests:
+            dests.append("H")
+        fail = sorted(set(rng.randrange(0, pre + 3) for _ in range(rng.randint(0, 3)))) if "F" in dests else []
+        cases.append(dict(kind="staged", pre=pre, dests=dests, fail=fail, post=rng.randint(0, 3)))
+    nviol = 0
+    for case in cases:
+        obs = run_staged(case)
+        during = [c for c in case["fail"] if c < case["pre"]]
+        ctx.case(case, nontrivial=case["pre"] >= 1 and (bool(during) or "R" in case["dests"]),
+                 tags=["staged:pre:%d" % min(case["pre"], 5), "staged:fails-during-hand-over:%d" % len(during),
+                       "staged:logging-destination:%d" % case["dests"].count("R")])
+        bad = oracle_staged(case, obs)
+        if bad and nviol < 3:
+            nviol += 1
+            ctx.violation(bad[0], dict(case, observed=obs, also=bad[1:3]), key=None)
+
+
 def replay_handover(ctx, obj):
     case = obj.get("case") or {}
+    if case.get("kind") == "staged":
+        c = {k: case[k] for k in ("kind", "pre", "dests", "fail", "post")}
+        obs = run_staged(c)
+        print("case    :", json.dumps(c))
+        print("received:", json.dumps(obs["seen"]), " raised on:", obs["raised"])
+        bad = oracle_staged(c, obs)
+        if bad:
+            ctx.violation(bad[0], dict(c, observed=obs, also=bad[1:3]))
+        return True
     if case.get("kind") != "handover":
         return False
     sk = e8_handover.skeleton(REPO)
